@@ -85,7 +85,8 @@ func (t *Transport) RoundTrip(req *http.Request) (*http.Response, error) {
 
 	h, p, err := net.SplitHostPort(req.URL.Host)
 	if err != nil {
-		h = req.URL.Host
+		// No port. Hostname removes the brackets of an IPv6 literal.
+		h = req.URL.Hostname()
 		switch req.URL.Scheme {
 		case "http":
 			p = "80"
